@@ -1,5 +1,6 @@
 use crate::report::Args;
 
+pub mod boxes;
 pub mod c03;
 pub mod c09;
 pub mod c12;
@@ -16,6 +17,7 @@ pub fn run(args: &Args) -> i32 {
         "C17" => c17::run(args),
         "C13" => c13::run(args),
         "C03" => c03::run(args),
+        "C04" | "C05" => boxes::run(args),
         "C09" => c09::run(args),
         "C12" => c12::run(args),
         "C18" => c18::run(args),
